@@ -10,13 +10,27 @@ R15.20  every place that *hashes* the value of a folded constant (uses it as a
         handler, as Stack.build already is for sets;
 R15.21  `<typ component>.__name__` is only taken where the type tag has been
         tested to be 'prim' (for every other tag the component is a frozenset
-        of element types, not a class).
+        of element types, not a class);
+R15.22  the value-or-type router (`build_pyval`: the function that either
+        materialises a constant from `const.value` through constant_to_var or
+        recurses into the type-driven `build_folded_type`) takes the value
+        route for EVERY constant that carries a value.  Raw code constants are
+        pushed with a non-canonical shape (LOAD_CONST: `elements = typ[1]`,
+        typestructs instead of _Constant objects; LIST_EXTEND re-tags every
+        element of a constant tuple as 'prim', also nested tuples), so the
+        type-driven path is only valid for constants without a value
+        (value None).  A router that tests the value by truthiness sends the
+        falsy constants 0, '', (), False down the type path: `[(), (1,),
+        (1, 2)]` then indexes `primitive_instances[()]` -> KeyError escapes.
+        The router's test is *evaluated* (rules/_peval.py) for falsy and
+        truthy, flat and nested tuple constants under both tags they can carry.
 """
 import ast
 
 from sa.core import rule, AnalysisError
 from sa.pyindex import get_module, dotted, src, calls_in
 from sa import flow
+from rules import _peval
 
 CF = "pytype/constant_folding.py"
 
@@ -195,7 +209,178 @@ def r15_21(ctx):
                 "itself raises AttributeError", {"guards": g})
 
 
+# Tuple constants are the ones whose _Constant is not canonical (scalars pushed
+# by LOAD_CONST are well-formed, so a scalar sent down the type route only
+# loses its literal value, which C15 does not care about).  Falsy and truthy
+# samples, flat and nested; `None` is the no-value sentinel, checked separately.
+_SAMPLES = [("tuple", ()), ("tuple", (0,)), ("tuple", (1,)), ("tuple", ((),)),
+            ("tuple", ((), 1)), ("tuple", (None,))]
+
+
+def _value_route(fn, pname):
+  """Exits of fn that hand `<pname>.value` to constant_to_var."""
+  out = []
+  for n in ast.walk(fn):
+    if isinstance(n, ast.Return) and n.value is not None:
+      for c in calls_in(n.value):
+        if isinstance(c.func, ast.Attribute) and c.func.attr == "constant_to_var" and c.args \
+            and src(c.args[0]) == f"{pname}.value":
+          out.append(n)
+  return out
+
+
+def _routers(mod):
+  """(function, parameter): a value-route exit plus an exit that passes the
+  same constant on to a function of this module (the type-driven route)."""
+  local_fns = {f.name for f in _functions(mod)}
+  out = []
+  for fn in _functions(mod):
+    own = [n for n in ast.walk(fn) if mod.enclosing_function(n) is fn]
+    for a in fn.args.args:
+      p = a.arg
+      vr = [r for r in _value_route(fn, p) if r in own]
+      if not vr:
+        continue
+      tr = []
+      for n in own:
+        if isinstance(n, ast.Return) and n not in vr and n.value is not None:
+          for c in calls_in(n.value):
+            if (dotted(c.func) or "") in local_fns and any(
+                isinstance(x, ast.Name) and x.id == p for x in c.args):
+              tr.append(n)
+      if tr:
+        out.append((fn, p, vr, tr))
+  return out
+
+
+def _noncanonical_producers(mod):
+  """`_Constant(typ, value, elements, op)` constructions whose elements are
+  derived from the type structure, or whose 'prim' component is a name that was
+  destructured from a typestruct while the original tag was discarded."""
+  out = []
+  for c in calls_in(mod.tree, name="_Constant"):
+    if len(c.args) < 3:
+      continue
+    typ, _, elements = c.args[:3]
+    tnames = {n.id for n in ast.walk(typ) if isinstance(n, ast.Name)}
+    if tnames and isinstance(elements, ast.Subscript) and dotted(elements.value) in tnames:
+      out.append((c, "elements taken from the typestruct"))
+    if isinstance(typ, ast.Tuple) and len(typ.elts) == 2 and \
+        isinstance(typ.elts[0], ast.Constant) and typ.elts[0].value == "prim" and \
+        isinstance(typ.elts[1], ast.Name):
+      comp = typ.elts[1].id
+      cur = c
+      while cur in mod.parent:
+        cur = mod.parent[cur]
+        if isinstance(cur, (ast.GeneratorExp, ast.ListComp)):
+          for g in cur.generators:
+            for t in ast.walk(g.target):
+              if isinstance(t, ast.Tuple) and any(
+                  isinstance(e, ast.Name) and e.id == comp for e in t.elts) and any(
+                      isinstance(e, ast.Name) and e.id == "_" for e in t.elts):
+                out.append((c, "component re-tagged 'prim' with the original tag discarded"))
+          break
+        if isinstance(cur, ast.stmt):
+          break
+  return out
+
+
+@rule("R15.22", "C15", floor=12)
+def r15_22(ctx):
+  """Every constant that carries a value is materialised from the value."""
+  mod = get_module(ctx, CF)
+  routers = _routers(mod)
+  if not routers:
+    raise AnalysisError("constant_folding: no value-or-type router found (a function "
+                        "returning constant_to_var(<p>.value) on one exit and passing <p> "
+                        "to a function of the module on another)")
+  prods = _noncanonical_producers(mod)
+  if not prods:
+    raise AnalysisError("constant_folding: no producer of non-canonical constants found; "
+                        "the premise of R15.22 (raw constants are only valid through their "
+                        "value) must be re-derived")
+  cdef = mod.cls("_Constant")
+  fields = [st.target.id for st in cdef.body
+            if isinstance(st, ast.AnnAssign) and isinstance(st.target, ast.Name)]
+  if fields[:3] != ["typ", "value", "elements"]:
+    raise AnalysisError(f"_Constant fields are {fields}")
+  ev = _peval.Evaluator(ctx)
+  for fn, p, vr, tr in routers:
+    q = _qual(mod, fn)
+
+    def exits_for(tag, comp, v):
+      const = _peval.Obj("_Constant", {"typ": (tag, comp), "value": v,
+                                       "elements": None, "op": _peval.UNK}, mod)
+      env = {a.arg: _peval.UNK for a in fn.args.args}
+      env[p] = const
+      try:
+        return _peval.possible_exits(ev, mod, None, fn, env)
+      except _peval.EvalError as e:
+        raise AnalysisError(f"{q}: routing test for value {v!r}: {e}") from e
+
+    # sanity: a constant without a value takes the type route
+    ex = exits_for("list", frozenset(), None)
+    if not ex or any(e in vr for e in ex):
+      raise AnalysisError(f"{q}: a constant with value None is not sent down the type route; "
+                          "the router is not understood")
+    for kind, v in _SAMPLES:
+      tags = ["prim", "tuple"] if isinstance(v, tuple) else ["prim"]
+      for tag in tags:
+        comp = type(v) if tag == "prim" and not isinstance(v, tuple) else ()
+        ex = exits_for(tag, comp, v)
+        by_value = [e for e in ex if e in vr]
+        other = [e for e in ex if e not in vr]
+        if by_value and other:
+          raise AnalysisError(f"{q}: the route of a {kind} constant {v!r} depends on state "
+                              "the analysis does not model")
+        ctx.check(bool(by_value) and not other, f"{q}:by-value:{kind}:{v!r}:{tag}", CF,
+                  (other[0] if other else fn).lineno,
+                  f"a {kind} constant {v!r} (tag {tag!r}) carries a value but {q} sends it "
+                  f"down the type-driven route (`{src(other[0])[:70] if other else ''}`): "
+                  "constants made from raw code constants are only valid through their value "
+                  f"({len(prods)} producers, e.g. line {prods[0][0].lineno}: {prods[0][1]}), "
+                  "so the type route indexes tables by a malformed type component or unpacks "
+                  "typestructs as constants and an internal exception escapes "
+                  "(e.g. `x = [(), (1,), (1, 2)]` -> KeyError: ())",
+                  {"producers": [(c.lineno, w) for c, w in prods],
+                   "exits": [src(e)[:80] for e in ex if isinstance(e, ast.stmt)]})
+
+
+_ROUTER = ("    if const.value is not None and const.tag in ('prim', 'tuple'):\n"
+           "      return state, ctx.convert.constant_to_var(const.value)\n"
+           "    else:\n"
+           "      return build_folded_type(ctx, state, const)\n")
+
 VARIANTS = [
+    {"name": "seeded-C15-r2m1", "rule": "R15.22", "patch": "seeded/C15-r2m1/patch.diff",
+     "expect": "fire"},
+    # different shape: tuples no longer take the value route
+    {"name": "router-prim-only", "rule": "R15.22", "file": CF, "expect": "fire",
+     "old": "    if const.value is not None and const.tag in ('prim', 'tuple'):\n",
+     "new": "    if const.value is not None and const.tag == 'prim':\n"},
+    # different shape: early-return form with a length test
+    {"name": "router-len-test", "rule": "R15.22", "file": CF, "expect": "fire",
+     "old": _ROUTER,
+     "new": ("    if const.tag == 'tuple' and not len(const.value or ()):\n"
+             "      return build_folded_type(ctx, state, const)\n"
+             "    if const.value is not None and const.tag in ('prim', 'tuple'):\n"
+             "      return state, ctx.convert.constant_to_var(const.value)\n"
+             "    return build_folded_type(ctx, state, const)\n")},
+    {"name": "twin-router-early-return", "rule": "R15.22", "file": CF, "expect": "silent",
+     "old": _ROUTER,
+     "new": ("    has_value = not (const.value is None)\n"
+             "    if not has_value or const.typ[0] not in {'tuple', 'prim'}:\n"
+             "      return build_folded_type(ctx, state, const)\n"
+             "    return state, ctx.convert.constant_to_var(const.value)\n")},
+    {"name": "twin-router-renamed-param", "rule": "R15.22", "file": CF, "expect": "silent",
+     "old": "  def build_pyval(state, const):\n" + _ROUTER,
+     "new": ("  def build_pyval(state, c):\n"
+             "    if c.tag in ('prim', 'tuple') and c.value is not None:\n"
+             "      return state, ctx.convert.constant_to_var(c.value)\n"
+             "    return build_folded_type(ctx, state, c)\n")},
+    {"name": "twin-prim-arm-identity-test", "rule": "R15.22", "file": CF, "expect": "silent",
+     "old": "  if tag == 'prim':\n    if const.value:\n",
+     "new": "  if tag == 'prim':\n    if const.value is not None and const.value != '':\n"},
     {"name": "revert-D40-map-key-unguarded", "rule": "R15.20", "file": CF, "expect": "fire",
      "old": "      try:\n        ret.add(k_elt, v_elt)\n      except TypeError as e:\n        raise ConstantError(f'TypeError: {e.args[0]}', op) from e\n",
      "new": "      ret.add(k_elt, v_elt)\n"},
